@@ -65,6 +65,21 @@ class H:
         return res
 
 
+class HT(H):
+    """three unrelated classes that take the same methods from ONE trait; the middle one widens two of them with the
+    visibility-only alias form (`use T0 { tmpv as public; tmpr as public; }`), which must not touch the other classes"""
+    TRAIT = [("tpu", "prop", "pu"), ("tmpu", "meth", "pu"), ("tmpr", "meth", "pr"), ("tmpv", "meth", "pv"), ("tsmpr", "smeth", "pr"), ("tsmpv", "smeth", "pv")]
+
+    def __init__(self):
+        H.__init__(self, [("Ua", None), ("Ub", None), ("Uc", None)], ["Ua", "Ub", "Uc"])
+        self.trait = True
+
+    def members(self, x):
+        # the table is the code's view: the visibility-only alias is dropped by the parser, Ub's entries keep the trait's
+        # modifiers; the probes on Ub's tmpv / tmpr carry the DECLARED modifier (public) for the rule
+        return list(self.TRAIT)
+
+
 def shapes(rng):
     """seeded variation of hierarchy shape and names"""
     def names(k):
@@ -79,6 +94,7 @@ def shapes(rng):
     res.append(H([(a, None), (b, a), (c, b), (d, c), (u, None)], [a, c]))           # linear chain, members at top and third level
     a, b, c, d, e, u = names(6)
     res.append(H([(a, None), (b, a), (c, a), (d, b), (e, c), (u, None)], [a, b]))   # two branches of depth 2
+    res.append(HT())
     return res
 
 
@@ -93,16 +109,28 @@ def vis_script_and_probes(h, only=None):
     L.append("function setref(&$x) { $x = 77; return 1; }")
     L.append('function deny() { throw new Exception("not listed"); }')
     # free functions (written outside every class), called from methods
+    fdone = set()
     for x in h.declaring:
         for n, kind, tag in h.members(x):
+            if n in fdone:
+                continue
+            fdone.add(n)
             if kind == "prop":
                 L.append("function fn_rd_%s($o) { return $o->%s; } function fn_wr_%s($o, $v) { $o->%s = $v; return 1; }" % (n, n, n, n))
             elif kind == "meth":
                 L.append("function fn_cl_%s($o) { return $o->%s(); }" % (n, n))
+    is_trait = getattr(h, "trait", False)
+    if is_trait:
+        L.append("trait T0 { public $tpu = 1; public function pk_tpu() { return $this->tpu; } " +
+                 " ".join('%s %sfunction %s() { return "%s"; }' % (dict((t, m) for t, m, _ in MODS)[tag], "static " if kind == "smeth" else "", n, n)
+                          for n, kind, tag in HT.TRAIT if kind != "prop") + " }")
     for k, par in h.classes:
         L.append("class %s%s {" % (k, (" extends " + par) if par else ""))
+        cstart = len(L)
+        if is_trait:
+            L.append("  use T0%s" % (" { tmpv as public; tmpr as public; }" if k == "Ub" else ";"))
         init = {"pu": 1, "pr": 2, "pv": 3}
-        for n, kind, tag in h.members(k):
+        for n, kind, tag in ([] if is_trait else h.members(k)):
             mod = dict((t, m) for t, m, _ in MODS)[tag]
             if kind == "prop":
                 L.append("  %s $%s = %d;" % (mod, n, init[tag]))
@@ -171,6 +199,13 @@ def vis_script_and_probes(h, only=None):
                         if h.le(named, x):
                             L.append("  public function %s_sr_%s_%s() { return %s::$%s; }" % (k, named, n, named, n))
                             L.append("  public function %s_sw_%s_%s($v) { %s::$%s = $v; return 1; }" % (k, named, n, named, n))
+        # (classes of a trait shape declare the same member names: emit every helper once)
+        body, seen_l = [], set()
+        for ln in L[cstart:]:
+            if ln not in seen_l:
+                seen_l.add(ln)
+                body.append(ln)
+        L[cstart:] = body
         L.append("}")
 
     cur = {"mark": ""}
@@ -180,6 +215,8 @@ def vis_script_and_probes(h, only=None):
         if only and only != (tuple(site), path, c, m):
             return
         L.append('try { sink(%s); echo "A\\n"; } catch (Throwable $e) { echo "D\\n"; }' % expr)
+        if getattr(h, "trait", False) and c == "Ub" and m in ("tmpv", "tmpr"):
+            kw = dict(kw, smod="pu")
         probes.append(dict({"site": site, "path": path, "c": c, "m": m, "d": d, "tag": tag, "store": None, "extra": extra}, **kw))
 
     def wr(stmt, readback, site, path, c, m, d, tag, init, extra=None, expect="77", **kw):
@@ -331,8 +368,9 @@ def coq_vprobe(p, allowed, changed):
     site = "Outside" if s[0] == "out" else 'InMethod "%s" "%s"' % (s[1], s[2])
     ssite = "Outside" if (s[0] == "out" or p.get("written") == "function") else site
     ch = "None" if changed is None else "(Some %s)" % ("true" if changed else "false")
-    return '{| v_site := %s; v_ssite := %s; v_path := %s; v_cls := "%s"; v_mem := "%s"; v_allowed := %s; v_changed := %s |}' % (
-        site, ssite, p["path"], p["c"], p["m"], "true" if allowed else "false", ch)
+    smod = "(Some Public)" if p.get("smod") == "pu" else "None"
+    return '{| v_site := %s; v_ssite := %s; v_smod := %s; v_path := %s; v_cls := "%s"; v_mem := "%s"; v_allowed := %s; v_changed := %s |}' % (
+        site, ssite, smod, p["path"], p["c"], p["m"], "true" if allowed else "false", ch)
 
 
 def sitekind(h, p):
@@ -373,7 +411,9 @@ def detail(h, p):
 TYPES = [("int", "TInt"), ("string", "TString"), ("array", "TArray"),
          ("A", '(TClass "A")'), ("I", '(TClass "I")'), ("?int", "(TNullable TInt)"), ("?A", '(TNullable (TClass "A"))'),
          ("int|string", "(TUnion TInt TString)"), ("A|string", '(TUnion (TClass "A") TString)'),
-         ("?I", '(TNullable (TClass "I"))'), ("int|string|array", "(TUnion TInt (TUnion TString TArray))")]
+         ("?I", '(TNullable (TClass "I"))'), ("int|string|array", "(TUnion TInt (TUnion TString TArray))"),
+         # two-member unions with null, in BOTH member orders (= ?T)
+         ("null|int", "(TNullable TInt)"), ("int|null", "(TNullable TInt)"), ("null|A", '(TNullable (TClass "A"))'), ("null|string", "(TNullable TString)")]
 VALUES = [("int", "5", "(VInt 5)"), ("str", '"s"', '(VStr "s")'), ("arr", "[1]", "VArr"), ("A", "new A()", '(VObj "A")'),
           ("B", "new B()", '(VObj "B")'), ("C", "new C()", '(VObj "C")'), ("D", "new D()", '(VObj "D")'),
           ("null", "null", "VNull"), ("bool", "true", "(VBool true)"), ("float", "1.5", "VFloat"),
@@ -398,7 +438,7 @@ def type_script_and_probes(only=None):
     probes = []
     for ti, (tn, _) in enumerate(TYPES):
         L.append("class K%d { public %s $p; public function setp($v) { $this->p = $v; return 1; } "
-                 "public function pm(%s $x) { return 1; } public static function ps(%s $x) { return 1; } "
+                 "public function app($v) { $this->p[] = $v; return 1; } public function pm(%s $x) { return 1; } public static function ps(%s $x) { return 1; } "
                  "public function rm($v): %s { return $v; } }" % (ti, tn, tn, tn, tn))
         L.append("class Q%d { public function __construct(%s $x) {} }" % (ti, tn))
         L.append("class QP%d { public function __construct(public %s $x) {} } class QR%d { public function __construct(private %s $x, public $y = 0) {} }" % (ti, tn, ti, tn))
@@ -433,6 +473,16 @@ def type_script_and_probes(only=None):
                 for rep in (0, 1):
                     L.append('try { %s echo "A\\n"; } catch (Throwable $e) { echo "D\\n"; }' % forms[label])
                     probes.append({"site": label, "b": bc, "ty": tn, "tyc": tc, "val": vn, "valc": vc})
+    # ---- the APPEND form of a store: `$k->p[] = v` / `$this->p[] = $v` on a typed property that holds nothing yet: what is
+    # stored is a new array, so the boundary is the property's with an array value, whatever is appended
+    for ti, (tn, tc) in enumerate(TYPES):
+        for via, stmt in (("append", "$k = new K%d(); $k->p[] = 5;" % ti), ("append-this", "$k = new K%d(); $k->app(5);" % ti),
+                          ("append-string", '$k = new K%d(); $k->p[] = "s";' % ti)):
+            if only and only != ("prop:arrow", tn, "arr"):
+                continue
+            for rep in (0, 1):
+                L.append('try { %s echo "A\\n"; } catch (Throwable $e) { echo "D\\n"; }' % stmt)
+                probes.append({"site": "prop:arrow", "b": "BProp", "ty": tn, "tyc": tc, "val": "arr", "valc": "VArr", "via": via, "prop_type": tn})
     # ---- constructor-PROMOTED typed parameters (public / private), positional and by name
     for ti, (tn, tc) in enumerate(TYPES):
         for vn, vsrc, vc in VALUES:
@@ -648,7 +698,8 @@ def inst_build(classes, ifaces, traits=()):
 def run_impl(binary, srcs):
     inp = "\n".join(json.dumps({"src": s}) for s in srcs) + "\n"
     p = subprocess.run([binary], input=inp, stdout=subprocess.PIPE, stderr=subprocess.PIPE, text=True, timeout=900)
-    outs = [json.loads(l) for l in p.stdout.splitlines() if l.strip()]
+    # (the interpreter prints PHP-style "Deprecated: ..." notices straight to the process's stdout: not observations)
+    outs = [json.loads(l) for l in p.stdout.splitlines() if l.startswith("{")]
     return outs, p.returncode, p.stderr
 
 
@@ -755,7 +806,10 @@ def main(ck):
             bad[int(mm.group(1))] = [int(x) for x in re.sub(r"%nat|\s", "", mm.group(2)).split(";") if x]
         for k, cls in sorted(bad.items()):
             p = probes[k]
-            key_base = "vis:%s:%s:%s" % (p.get("pathname") or PATHNAME[p["path"]], {"pu": "public", "pr": "protected", "pv": "private"}[p["tag"]], sitekind(h, p))
+            pname = p.get("pathname") or PATHNAME[p["path"]]
+            if isinstance(h, HT) and p["c"] == "Ub" and p["m"] in ("tmpv", "tmpr"):
+                pname = "trait-alias-" + pname          # a method whose visibility the class changed with `use T0 { m as public; }`
+            key_base = "vis:%s:%s:%s" % (pname, {"pu": "public", "pr": "protected", "pv": "private"}[p.get("smod") or p["tag"]], sitekind(h, p))
             rep = {"shape": h.classes, "declaring": h.declaring, "probe": {x: p[x] for x in ("site", "path", "c", "m", "d", "tag", "extra")},
                    "impl_out": p["obs"], "clauses": cls, "detail": detail(h, p)}
             if 9 in cls:
@@ -847,7 +901,7 @@ def main(ck):
               rule="3 seeded hierarchy shapes (fork with grandchild, linear chain of 4, two branches of depth 2, each with an unrelated class; "
                    "seeded class names), members (instance/static property, instance/static method) x 3 modifiers declared at two levels; sites: "
                    "top level, top-level closure, and code written in every class l running on an object of every class r <= l (plain and inside "
-                   "a closure); every object class; every applicable path; stores read back through a getter of the declaring class. Types: 11 "
+                   "a closure); every object class; every applicable path; stores read back through a getter of the declaring class. Types: 15 "
                    "declared types x 15 value kinds (floats with and without a fractional part) x 16 boundary sites, plus the return boundary fed from a typed PROPERTY: 7 property types (incl. untyped) x 11 return types x 12 values "
                    "through `return $this->p;`, `return $this->p ?? $this->p;` and (2 property types) a static accessor, applicable when the property's own type lets the value in. Instantiation: seeded hierarchies (2-5 classes, abstract flags, abstract/concrete methods f,g,h,k, 0-3 interfaces with extends and methods), `new X()` for every class and interface. evaluations = probes",
               traces=total)
